@@ -164,7 +164,7 @@ def dispatch(ctx, cr):
             ctx.lost(rule, "%s:%s:primitive" % (rule, name), "rules::functions::" + impl)
 
 
-def reaches_primitive(cr, f, prim):
+def reaches_primitive(cr, f, prim, depth=0):
     for bi, t in M.iter_calls(f):
         p = M.norm_path(t["fn"].get("path", ""))
         d = M.norm_path(t["fn"].get("decl", ""))
@@ -177,6 +177,12 @@ def reaches_primitive(cr, f, prim):
     for k2, f2 in cr.fns.items():
         if k2.startswith(f["key"] + "::{closure") and reaches_primitive(cr, f2, prim):
             return True
+    # private helpers of the same file the function calls (the per-element step split off into a helper)
+    if depth < 2:
+        for bi, t in M.iter_calls(f):
+            callee = cr.fns.get(t["fn"].get("key", "")) if t["fn"].get("local") else None
+            if callee is not None and callee is not f and ai.is_private_fn(callee) and callee.get("file") == f.get("file") and reaches_primitive(cr, callee, prim, depth + 1):
+                return True
     return False
 
 
